@@ -176,6 +176,18 @@ def _mk_nested_async(coord):
     return resolver
 
 
+def _shared_sync(parent, ctx, info, **args):
+    """one function object registered on several fields (resolver caches are keyed by the function)"""
+    ctx.ev("invoke", pstr(info.path))
+    return _outcome(ctx, info, parent, args)
+
+
+async def _shared_async(parent, ctx, info, **args):
+    p = pstr(info.path)
+    ctx.ev("invoke", p)
+    return await ctx.loop.defer("co:" + p, lambda: _outcome(ctx, info, parent, args))
+
+
 _SCHEMAS = {}
 
 
@@ -187,7 +199,11 @@ def schema_for(custom, asyncio_styles, sdl="full"):
         for coord in sorted(custom):
             style = custom[coord]
             t, f = coord.split(".")
-            if style == "nested":
+            if style == "shared":
+                fn = _shared_sync
+            elif style == "shared-async":
+                fn = _shared_async if asyncio_styles else _shared_sync
+            elif style == "nested":
                 fn = _mk_nested_async(coord) if asyncio_styles else _mk_nested_sync(coord)
             else:
                 fn = _mk_async(coord) if (style == "async" and asyncio_styles) else _mk_sync(coord)
